@@ -14,7 +14,7 @@ type verifBlock struct {
 
 func verifMakeBlock(tag string, k int) verifBlock {
 	b := verifBlock{present: make([]bool, k), vals: make([]uint64, k)}
-	b.start = uint16(verifRange(tag+".start", 0, 65535-int64(k)))
+	b.start = uint16(verifRange(tag+".start", 0, 65536-int64(k))) // the last slot may be 65535
 	for i := 0; i < k; i++ {
 		b.present[i] = verifNondetBool(tag + ".present")
 		b.vals[i] = verifNondetUint64(tag + ".val")
